@@ -10,6 +10,7 @@ require (
 	deps.dev/util/resolve v0.0.0-00010101000000-000000000000
 	deps.dev/util/semver v0.0.0-20241230231135-52b7655a522f
 	google.golang.org/genproto v0.0.0-20230410155749-daa745c078e1
+	google.golang.org/grpc v1.71.1
 	google.golang.org/protobuf v1.36.6
 )
 
@@ -17,7 +18,6 @@ require (
 	golang.org/x/net v0.38.0 // indirect
 	golang.org/x/sys v0.31.0 // indirect
 	golang.org/x/text v0.23.0 // indirect
-	google.golang.org/grpc v1.71.1 // indirect
 )
 
 replace (
